@@ -34,6 +34,47 @@ def playback_env(gen_dir):
     return e
 
 
+def trace_confirm(C, h, res, path, art):
+    """heavy harnesses whose stubs rule out a native run: second solver run on the ONE failed property with --trace;
+    the assignments CBMC made to the harness' own variables are stored as the counterexample"""
+    props = [d["property"] for d in res["failed"] if d.get("property")][:1]
+    cmd = [x for x in res["cbmc_cmd"] if x not in ("--json-ui",)]
+    cmd = cmd[:1] + ["--trace", "--stop-on-fail", "--json-ui"] + sum((["--property", q] for q in props), []) + cmd[1:]
+    out_json = path[:-5] + ".cbmc-trace.json"
+    rc, dt = C.run_logged(cmd, path[:-5] + ".cbmc-trace.log", max(1800, h["timeout"] * 2), res.get("mem_limit_gb", 16), stdout_path=out_json)
+    verdict, assigns = "unknown", []
+    try:
+        j = json.load(open(out_json))
+        for o in j:
+            if "result" in o:
+                for r in o["result"]:
+                    if r.get("status") == "FAILURE" and (not props or r.get("property") in props):
+                        verdict = "FAILED"
+                        for st in r.get("trace", []):
+                            if st.get("stepType") == "assignment" and not st.get("hidden"):
+                                sl = st.get("sourceLocation", {})
+                                if "/verif/harness" in sl.get("file", "") or "verif_harness" in sl.get("function", ""):
+                                    v = st.get("value", {})
+                                    assigns.append({"lhs": st.get("lhs"), "value": v.get("data", v.get("name")), "line": sl.get("line")})
+                if verdict != "FAILED" and any(r.get("status") == "SUCCESS" for r in o["result"]):
+                    verdict = "SUCCESSFUL"
+    except Exception as e:  # noqa
+        verdict = f"unknown ({e})"
+    try:
+        os.remove(out_json)  # can be hundreds of MB
+    except OSError:
+        pass
+    art["replay_mode"] = "trace"
+    art["confirmation"] = "second CBMC run restricted to the failed property with --trace (harness too heavy for a kani-driver re-run: declared %s GB)" % h.get("mem")
+    art["kani_driver_verdict"] = "not run"
+    art["cbmc_trace_verdict"] = verdict
+    art["trace_assignments"] = assigns[-400:]
+    art["concrete_vals"] = None
+    with open(path, "w") as f:
+        json.dump(art, f, indent=1)
+    return path, verdict == "FAILED", f"counterexample confirmed by a second solver run on the failed property ({dt:.0f} s); {len(assigns)} harness assignments stored (stubs prevent native replay)"
+
+
 def make_replay(C, prop, h, res):
     """returns (path, reproduced, detail)"""
     name = h["harness"]
@@ -44,6 +85,9 @@ def make_replay(C, prop, h, res):
            "crate": h["crate"], "failed_checks": res["failed"], "repo_head": C.git_head(C.REPO),
            "how_to_run": f"cd /verif && bin/check --replay {path}", "concrete_vals": None}
     detail = ""
+    if (h.get("replay", "native") == "trace" or res.get("progress_violation")) and h.get("mem", 3) >= 8 \
+            and res.get("goto") and os.path.exists(res["goto"]):
+        return trace_confirm(C, h, res, path, art)
     with C.Scratch(f"replay-{prop}-{name}") as sc:
         C.run_generators(sc)
         sc.td = os.path.join(sc.root, "td")
@@ -57,7 +101,7 @@ def make_replay(C, prop, h, res):
             cmd += ["-Z", "concrete-playback", "--concrete-playback=print"]
         try:
             p = subprocess.run(cmd, cwd=sc.repo, env=C.kani_env(sc.gen), stdout=subprocess.PIPE, stderr=subprocess.STDOUT,
-                               text=True, timeout=max(900, h["timeout"] * 4))
+                               text=True, timeout=max(900, h["timeout"] * 4), preexec_fn=C.limit_mem(40))
             out = p.stdout
         except subprocess.TimeoutExpired as e:
             out = (e.stdout or b"").decode(errors="replace") if isinstance(e.stdout, bytes) else (e.stdout or "")
